@@ -161,7 +161,7 @@ def run_ip(job, ctx):
                     ctx.fail('ip-reported-on-invalid-token', where, 'ip|' + q, {'model': 'IpAddressModel', 'query': q, 'cls': kind}, [], view(res))
 
 
-def exact(model_name, type_name, s, ctx, cls, carriers, value=None):
+def exact(model_name, type_name, s, ctx, cls, carriers, value=None, loose=False):
     m = seq_model(model_name)
     where = {'model': model_name, 'culture': 'en-us', 'cls': cls}
     for c in carriers:
@@ -177,8 +177,12 @@ def exact(model_name, type_name, s, ctx, cls, carriers, value=None):
         ctx.event('boundary_calls')
         ctx.observe(key=key, nontrivial=bool(r), cell=cls, sample={'query': q, 'observed': view(r)})
         want = value if value is not None else s
-        ok = (len(r) == 1 and r[0].start == st and r[0].end == st + len(s) - 1 and r[0].type_name == type_name and
-              r[0].resolution.get('value') == want and r[0].text == want)
+        ok = (len(r) == 1 and r[0].type_name == type_name and r[0].resolution.get('value') == want and r[0].text == want)
+        if ok and loose:
+            # phone formats whose regex also swallows the blank before them: the span may start on that blank
+            ok = 0 <= r[0].start <= st and r[0].end == st + len(s) - 1 and q[r[0].start:r[0].end + 1].strip() == s
+        elif ok:
+            ok = r[0].start == st and r[0].end == st + len(s) - 1
         if not ok:
             mech = 'missed' if not r else 'split' if len(r) > 1 else 'wrong-span-or-value'
             ctx.fail('%s-%s' % (cls.split(' ')[0], mech), where, key, {'model': model_name, 'query': q, 'cls': cls, 'expr': s},
@@ -221,6 +225,8 @@ def run_other(job, ctx):
                        ('phone +1', '+1 %d-%d-%04d' % (a, b, c)), ('phone dots', '%d.%d.%04d' % (a, b, c)),
                        ('phone intl', '+44 20 %d %d' % (r.randrange(1000, 10000), r.randrange(1000, 10000)))):
             exact('PhoneNumberModel', 'phonenumber', s, ctx, cls, ['{}', 'my number is {}', 'call {} now'])
+        for cls, s in (('phone uk-trunk', '(0) %09d' % r.randrange(100000000, 999999999)), ('phone uk-trunk-glued', '(0)%010d' % r.randrange(1000000000, 9999999999))):
+            exact('PhoneNumberModel', 'phonenumber', s, ctx, cls, ['{}', 'my number is {}', 'call  {}  now', 'tel:\t{}'], loose=True)
 
 
 def plan(tier, seed):
